@@ -117,6 +117,10 @@ def judge03 (s : Unit) (ws : List String) : Unit × String :=
         match parse r.argc r.args with
         | .error _ => (s, s!"violation tamper_accepted {r.tamper}: unparsable request accepted")
         | .ok p =>
+          -- the request names another chaincode / channel than the one that executed it
+          if r.args.getD 1 "" ≠ r.env.cc ∨ r.args.getD 2 "" ≠ r.env.ch then
+            (s, s!"violation retarget_accepted a request signed for {r.args.getD 1 ""}/{r.args.getD 2 ""} was executed by {r.env.cc}/{r.env.ch}")
+          else
           let m := message r.fn r.args p.signers
           let signedMsgs := r.sigs.filterMap (fun x => match x.2 with | .valid _ _ msg => some msg | _ => none)
           if signedMsgs.all (· = m) ∧ ¬ signedMsgs.isEmpty then
